@@ -70,6 +70,17 @@ def r_data(d, q):
     return np.array([[v / q for v in row] for row in d], dtype=np.float64)
 
 
+def pert(p, x):
+    """rendering of perturbation number p of SignalOps.tla's near delays (p = 0: the lattice delay itself)"""
+    if p == 0:
+        return x
+    if p == 1:
+        return float(np.nextafter(x, np.inf))
+    if p == 7:
+        return (x + 0.1) - 0.1                      # round-off of the caller's delay arithmetic
+    return x + {2: 1e-12, 3: 1e-10, 4: 4e-10, 5: 1e-9, 6: 1e-6}[p]
+
+
 class Replayer:
     """drives the implementation through one specification behaviour (list of states with ev / obs)"""
 
@@ -77,6 +88,7 @@ class Replayer:
         self.sm, self.ts, self.pa = load_sysid()
         self.impl = impl or {}
         self.calls = 0
+        self.near = {"pairs<1e-9": 0, "pairs_adjacent_floats": 0, "pairs_1e-9..1e-6": 0, "calls": 0}
 
     def fn(self, name):
         return self.impl.get(name) or getattr(self.sm, name)
@@ -114,6 +126,13 @@ class Replayer:
                 sd = None
             return self.fn("apply_resample_and_delay")(x, grid, cfg["dd"] / td, sensor_delays=sd,
                                                        predicted_data=bool(cfg["pred"])), [grid]
+        if op == "rsdn":
+            grid = r_times(ev["grid"], td)
+            cfg = ev["cfg"]
+            raw = lambda sym: pert(sym[1], sym[0] / td)          # noqa: E731
+            sd = {s: raw(cfg[s]) for s in ("a", "b") if cfg[s][0] != -99}
+            return self.fn("apply_resample_and_delay")(x, grid, raw(cfg["dd"]), sensor_delays=sd or None,
+                                                       predicted_data=bool(cfg["pred"])), [grid]
         if op == "resample":
             if ev["g"] == 0:
                 return x.resample(x.times, method=ev["m"]), []
@@ -124,6 +143,51 @@ class Replayer:
         if op == "rfb":
             return x.remove_from_beginning(ev["cut"] / td), []
         raise Machinery("unknown op %r" % (ev,))
+
+    def check_near(self, si, ev, x, res):
+        """apply_resample_and_delay with almost-equal delays: every column must equal TimeSeries.resample of that
+        column alone at grid + its own shift (the specification's law), unperturbed columns the lattice values"""
+        out = []
+        td = self.tden
+        grid = r_times(ev["grid"], td)
+        if not (isinstance(res, self.ts.TimeSeries) and np.array_equal(res.times, grid)
+                and res.data.shape == (len(grid), 3)):
+            return [(si, "rsdn:result:shape", "apply_resample_and_delay returned a malformed series")]
+        shifts = []
+        for col in ev["cols"]:
+            xraw = (-col["base"] if col["neg"] else col["base"]) / td
+            f = pert(col["p"], xraw)
+            shifts.append(-f if col["neg"] else f)
+        self.near["calls"] += 1
+        for i in range(3):
+            for j in range(i + 1, 3):
+                d = abs(shifts[i] - shifts[j])
+                if d == 0:
+                    continue
+                if d < 1e-9:
+                    self.near["pairs<1e-9"] += 1
+                    if d <= np.spacing(max(abs(shifts[i]), abs(shifts[j]))):
+                        self.near["pairs_adjacent_floats"] += 1
+                elif d <= 1.5e-6:
+                    self.near["pairs_1e-9..1e-6"] += 1
+        for ci, col in enumerate(ev["cols"]):
+            one = self.ts.TimeSeries(x.times, x.data[:, [ci]])
+            ref = one.resample(grid + shifts[ci]).data[:, 0]
+            if not np.array_equal(res.data[:, ci], ref):
+                others = sorted(abs(shifts[ci] - s2) for k2, s2 in enumerate(shifts) if k2 != ci and s2 != shifts[ci])
+                cls = "near-delay<1e-9" if others and others[0] < 1e-9 else "separate-delay"
+                out.append((si, "rsdn:grouped-differs-from-columnwise:%s" % cls,
+                            "apply_resample_and_delay(delays %s): column %d = %s, but resampling that column alone "
+                            "at times + %r gives %s" % ([repr(v) for v in shifts], ci, res.data[:, ci].tolist(),
+                                                        shifts[ci], ref.tolist())))
+            if col["p"] == 0:
+                want = np.array([row[ci] / self.q for row in ev["base"]])
+                if not np.array_equal(res.data[:, ci], want):
+                    out.append((si, "rsdn:unperturbed-column-off-lattice",
+                                "apply_resample_and_delay(delays %s): column %d has the exact delay %r, result %s, "
+                                "specification says %s" % ([repr(v) for v in shifts], ci, shifts[ci],
+                                                           res.data[:, ci].tolist(), want.tolist())))
+        return out
 
     def run(self, states):
         """returns list of problems [(step, signature, text)]; resynchronises after each problem"""
@@ -191,6 +255,9 @@ class Replayer:
                     problems.append((si, "get:%s:value" % ev["m"], "get(t=%s, %s) = %s, specification says %s"
                                      % (ev["t"] / self.tden, ev["m"], np.asarray(row).tolist(), want.tolist())))
                 continue
+            if op == "rsdn":
+                problems += self.check_near(si, ev, objs[ev["o"] - 1], res)
+                continue
             want = obs[ev["new"] - 1]
             bad = None
             if any(res is i for i in inputs):
@@ -224,6 +291,13 @@ def _mutating_gain(ts, sensor_name, gain):
     return type(ts)(ts.times, ts.data, ts.signal_mapping)
 
 
+def _merging_rsd(ts, times, default_delay, sensor_delays=None, predicted_data=True):
+    """negative control: an apply_resample_and_delay that merges delays closer than a nanosecond"""
+    sm = load_sysid()[0]
+    sd = None if sensor_delays is None else {k: round(v, 9) for k, v in sensor_delays.items()}
+    return sm.apply_resample_and_delay(ts, times, round(default_delay, 9), sd, predicted_data)
+
+
 def run(ctx):
     load_sysid()
     ctx.assume("time stamps are multiples of 1/4 s with power-of-two steps, values multiples of 1/4096: every "
@@ -236,7 +310,7 @@ def run(ctx):
     res = tlc.run(SPEC, os.path.join(TLA, deep), timeout=1500)
     ctx.tlc_ok(res, deep[:-4])
     exhaustive = res.finished
-    acts = ["Create", "ApplyBias", "ApplyGain", "ApplyDelay", "TimeWindow", "DelayedWindow", "ResampleAndDelay",
+    acts = ["Create", "ApplyBias", "ApplyGain", "ApplyDelay", "TimeWindow", "DelayedWindow", "ResampleAndDelay", "ResampleAndDelayNear",
             "Resample", "Get", "RemoveFromBeginning"]
     # negative control on the specification: a mutating delay is refuted by TLC
     rb = tlc.run(SPEC, os.path.join(TLA, "SignalOps_Bug.cfg"), timeout=300)
@@ -272,6 +346,11 @@ def run(ctx):
     bad[k]["obs"][bad[k]["ev"]["new"] - 1]["d"][0][2] += 1
     pr = Replayer().run(bad)
     ctx.control("a perturbed expected value (1/4096) is flagged", any(p[1] == "bias:result:data" for p in pr))
+    probe = next(b for b in behs if any(s["ev"]["op"] == "rsdn" and any(c["p"] in (2, 3, 4) for c in s["ev"]["cols"])
+                                        for s in b))
+    pr = Replayer(impl={"apply_resample_and_delay": _merging_rsd}).run(probe)
+    ctx.control("an apply_resample_and_delay that merges delays closer than 1e-9 is flagged",
+                any(p[1].startswith("rsdn:") for p in pr))
     # 4. replay
     rp = Replayer()
     opcount = {}
@@ -280,7 +359,7 @@ def run(ctx):
         work = [e for e in ops if e["op"] != "create"]
         for e in work:
             opcount[e["op"]] = opcount.get(e["op"], 0) + 1
-        key = [tlc.to_py({k: v for k, v in e.items() if k not in ("map",)}) for e in ops]
+        key = [tlc.to_py({k: v for k, v in e.items() if k not in ("map", "base", "grid", "groups", "cols")}) for e in ops]
         ctx.case(key, nontrivial=len(work) > 0, sample={"ops": key[:5]})
         problems = rp.run(beh)
         if not problems:
@@ -292,6 +371,10 @@ def run(ctx):
                 continue
             seen.add(sig)
             ctx.violation(sig, text + " [history: %s]" % [e["op"] for e in ops[:si]], {"states": slim(beh, si)})
+    # vacuity: almost-equal-but-different delay pairs really went through apply_resample_and_delay
+    if rp.near["pairs<1e-9"] < 20 or rp.near["pairs_adjacent_floats"] < 3 or rp.near["pairs_1e-9..1e-6"] < 3:
+        raise Machinery("vacuity: near-equal delay pairs not exercised: %r" % (rp.near,))
+    ctx.cov["near_delay_pairs"] = rp.near
     ctx.cov["exhaustive"] = bool(exhaustive)
     ctx.cov["ops_replayed"] = opcount
     ctx.cov["rule"] = ("behaviours = edge cover of the exhaustive small-parameter state graph (%d edges, <= 3 "
